@@ -99,7 +99,7 @@ CLAIMED["C13"] = (
     "DESIGN.md section 4 C13, section 3 R-PAIR")
 for _pid, _what, _extra_t, _extra_w in (
         ("C04", "select1/select0 refuse k >= count; positions checked before unchecked word access",
-         "; who-writes rule on BitVector.len / .blocks in shrinking methods (R-SHRINK); last-word mask rule (R-TAILMASK)",
+         "; who-writes rule on BitVector.len / .blocks in shrinking methods (R-SHRINK); last-word mask rule (R-TAILMASK); ownership-flow rule for caller-supplied raw words (R-RAWWORDS: moved on only behind a tail mask)",
          "; BitVector's pop/resize/clear clear the storage they vacate (whole-word popcounts rely on it)"),
         ("C09", "indexed accessors of the compressed integer containers refuse reads past the end",
          "; chunks_exact tail-handling rule (R-REMAINDER); no refusing range check on an already narrowed value (R-NARROWCHECK); "
